@@ -9,6 +9,7 @@ import (
 	"os"
 	"sort"
 	"strings"
+	"sync"
 	"time"
 
 	"verif/internal/h"
@@ -161,6 +162,38 @@ func storePhase(args []string) int {
 			}
 			ctl.Log("ack %d", step.Bulk)
 			emit(phaseEvent{Ev: "ack", Bulk: step.Bulk})
+		case "bulk_par":
+			// bulks Bulk..Bulk+N-1 submitted concurrently (group commit of the file writers)
+			var pwg sync.WaitGroup
+			var loaded [][]*model.Doc
+			for k := step.Bulk; k < step.Bulk+step.N; k++ {
+				docs, err := readBulkFile(spec.Work, k)
+				if err != nil {
+					emit(phaseEvent{Ev: "error", Err: err.Error()})
+					return 3
+				}
+				loaded = append(loaded, docs)
+			}
+			gate := make(chan struct{})
+			for k := step.Bulk; k < step.Bulk+step.N; k++ {
+				docs := loaded[k-step.Bulk]
+				pwg.Add(1)
+				go func(k int) {
+					defer pwg.Done()
+					<-gate
+					ctl.Log("submit %d", k)
+					emit(phaseEvent{Ev: "submit", Bulk: k})
+					if err := st.Bulk(docs); err != nil {
+						ctl.Log("bulk-error %d", k)
+						emit(phaseEvent{Ev: "bulk-error", Bulk: k, Err: err.Error()})
+						return
+					}
+					ctl.Log("ack %d", k)
+					emit(phaseEvent{Ev: "ack", Bulk: k})
+				}(k)
+			}
+			close(gate)
+			pwg.Wait()
 		case "seal":
 			st.WaitIdle()
 			ctl.Log("seal begin")
